@@ -124,6 +124,23 @@ func TestC11(t *testing.T) {
 				bystanderIn = true
 				kit.Label("C11", "bystander-row-in-aggregate")
 			}
+			// sometimes an operation the aggregate has to refuse comes in between (a second insert of
+			// the row while the aggregate holds changes of it): the error is the whole effect
+			if cur != nil && i > 0 && agg.GetModel(tb.Name, uuid) != nil && rapid.IntRange(0, 4).Draw(t, "refusedop") == 0 {
+				rop := kit.Op{Op: "insert", Table: tb.Name, UUID: uuid, Row: kit.GenRow(t, tb, pool, false)}
+				rdec, err := kit.DecodeOps(s, []kit.Op{rop})
+				if err != nil {
+					t.Fatalf("harness: %v", err)
+				}
+				var ur updates.ModelUpdates
+				if err := ur.AddOperation(w.DBModel, tb.Name, uuid, nil, &rdec[0]); err != nil {
+					t.Fatalf("harness: insert operation on its own: %v", err)
+				}
+				if err := agg.Merge(w.DBModel, ur); err == nil {
+					fail("aggregate.error", "a second insert of the row was merged into an aggregate that holds changes of it (op %d)", i)
+				}
+				kit.Label("C11", "refused-operation-in-between")
+			}
 			var op kit.Op
 			next := kit.Row(nil)
 			switch {
